@@ -163,7 +163,7 @@ func collect(w *World, c Case, t0 time.Time) Result {
 		stats[k] += v
 	}
 	res := Result{Case: c, Status: "done", Violations: append([]Violation(nil), w.Violations...), Stats: stats, Notes: w.Notes}
-	res.Sig = sigOf(c.Family, w.Cfg.String(), shape)
+	res.Sig = sigOf(c.Family, w.Cfg.String(), shape, w.SigExtra)
 	if c.Idx%25 == 0 || len(res.Violations) > 0 {
 		s := shape
 		if len(s) > 1500 {
